@@ -1,5 +1,6 @@
 import CalVerif.Props.C01
 import CalVerif.Props.C02
+import CalVerif.Props.C03
 import CalVerif.Props.C05
 import CalVerif.Props.C08
 import CalVerif.Props.C10
@@ -7,6 +8,7 @@ import CalVerif.Props.C12
 import CalVerif.Props.C13
 import CalVerif.Props.C14
 import CalVerif.Props.C15
+import CalVerif.Props.C17
 import CalVerif.Props.C18
 import CalVerif.Props.C19
 /-! # C06 — malformed or hostile input yields an error, never a panic, a hang or a memory blow-up
@@ -71,13 +73,19 @@ theorem number_format_scanner_no_panic (s : List Char) (msg : String) : Formats.
 
 /-! ## Range and header-row windowing -/
 
-/-- `Range::from_sparse` under its documented precondition (rows between the first's and the last's,
-    `u32` coordinates): returns. Outside the precondition (rows out of order in a hostile file) it can panic:
-    known finding `panic:calamine::Range::from_sparse:overflow`. -/
+/-- `Range::from_sparse` on cells in ANY order (after the D40 repair): it returns for every list of `u32`
+    coordinates whose row and column spans (+1) fit `u32` — no order hypothesis. (What it allocates is the dense
+    bounding box: the known finding D37.) -/
+theorem from_sparse_no_panic {α : Type} [Inhabited α] (cells : List (Nat × Nat × α))
+    (hb : ∀ c ∈ cells, c.1 < 4294967296 ∧ c.2.1 < 4294967296)
+    (hspan : ∀ c ∈ cells, ∀ c' ∈ cells, c'.1 - c.1 + 1 < 4294967296 ∧ c'.2.1 - c.2.1 + 1 < 4294967296) :
+    ∃ r, Range.fromSparse cells = .ok r := Range.fromSparse_no_panic cells hb hspan
+
 theorem from_sparse_returns {α : Type} [Inhabited α] (cells : List (Nat × Nat × α)) (h : Range.sparsePre cells) :
     ∃ r, Range.fromSparse cells = .ok r := Range.fromSparse_of_pre cells h
 
-/-- header-row windowing of the lazy readers: returns for every option on every in-sheet, row-ordered cell list -/
+/-- header-row windowing of the lazy readers: returns for every option (any `n`) on every in-sheet, row-ordered
+    cell list. NOT a hostile-input statement: it holds under those two hypotheses. -/
 theorem header_row_lazy_returns {α : Type} [Inhabited α] [DecidableEq α] (cells : List (Nat × Nat × α))
     (hs : HeaderRow.RowSorted cells) (hb : HeaderRow.InSheet cells) (h : HeaderRow.Hdr) :
     ∃ r, HeaderRow.windowLazy cells h = .ok r := HeaderRow.lazy_no_panic cells hs hb h
@@ -132,6 +140,13 @@ theorem cfb_get_stream_total (c : Cfb.CfbSt) (name : List Char) (rd : Cfb.Bytes)
     (∀ m, Cfb.getStream c name rd ≠ .panic m) ∧ Cfb.getStream c name rd ≠ .outOfFuel :=
   Cfb.getStream_no_panic c name rd
 
+/-- time: the number of sector reads `Cfb::new` plus one `get_stream` perform is linear in the file length, on
+    arbitrary bytes (a GLOBAL step count threaded through the nested loops, not a per-loop budget) -/
+theorem cfb_read_cost_linear (file : Cfb.Bytes) (len : Nat) (c : Cfb.CfbSt) (rd : Cfb.Bytes)
+    (h : Cfb.new file len = .ok (c, rd)) (name : List Char) :
+    Cfb.newCost file + Cfb.getStreamCost c name rd ≤ 3 * file.length + 110 :=
+  Cfb.read_cost_linear file len c rd h name
+
 /-! ## xls records, strings, formulas -/
 
 /-- `parse_mul_rk` on any payload: never a panic (after the arithmetic fix) -/
@@ -141,6 +156,51 @@ theorem xls_mulrk_no_panic (env : BiffCells.Env) (r : Biff.Bytes) (s : String) :
 /-- record loop + `parse_sst` on any byte stream: terminates within `length + 1` steps -/
 theorem xls_sst_reader_terminates (s : Biff.Bytes) : Biff.sstFromStream (s.length + 1) s ≠ .outOfFuel :=
   Biff.sst_reader_never_out_of_fuel s
+
+/-- both formula token decoders and the xls defined-name decoder are total on arbitrary token bytes (after the
+    C14 follow-up): never a panic, and the loop budget `rgce.length` is never exhausted -/
+theorem xls_formula_decoder_no_panic (ctx : Ptg.Ctx) (rgce : Ptg.Bytes) (m : String) :
+    Ptg.parseFormulaXls ctx rgce ≠ .panic m := C14.parseFormulaXls_no_panic ctx rgce m
+
+theorem xls_formula_decoder_terminates (ctx : Ptg.Ctx) (rgce : Ptg.Bytes) :
+    Ptg.parseFormulaXls ctx rgce ≠ .outOfFuel := C14.parseFormulaXls_fuel ctx rgce
+
+theorem xlsb_formula_decoder_no_panic (ctx : Ptg.Ctx) (rgce : Ptg.Bytes) (m : String) :
+    Ptg.parseFormulaXlsb ctx rgce ≠ .panic m := C14.parseFormulaXlsb_no_panic ctx rgce m
+
+theorem xlsb_formula_decoder_terminates (ctx : Ptg.Ctx) (rgce : Ptg.Bytes) :
+    Ptg.parseFormulaXlsb ctx rgce ≠ .outOfFuel := C14.parseFormulaXlsb_fuel ctx rgce
+
+theorem xls_defined_name_decoder_no_panic (rgce : Ptg.Bytes) (m : String) :
+    Ptg.definedNameXls rgce ≠ .panic m := C14.definedNameXls_no_panic rgce m
+
+/-- record framing + `parse_sst` on ANY byte stream: `Ok` or `Err` within the budget -/
+theorem xls_sst_reader_total (s : Biff.Bytes) :
+    (∃ v, Biff.sstFromStream (s.length + 1) s = .ok v) ∨ (∃ e, Biff.sstFromStream (s.length + 1) s = .err e) :=
+  Biff.sstFromStream_total s
+
+/-- `parse_merge_cells` on any payload: regions or a `Len` error -/
+theorem xls_merge_cells_total (r : Geometry.Bytes) :
+    (∃ ds, Geometry.parseMergeCells r = .ok ds) ∨ Geometry.parseMergeCells r = .err "Len:merge cells" :=
+  Geometry.parse_merge_cells_no_panic r
+
+/-! ## xlsb -/
+
+/-- xlsb record framing, the sheet-part cell loop and the shared-string reader on ANY bytes: no panic, budgets
+    suffice (after the C03 follow-up) -/
+theorem xlsb_records_no_panic (bs : Xlsb.Bytes) (m : String) : Xlsb.records bs ≠ .panic m :=
+  Xlsb.records_no_panic bs m
+
+theorem xlsb_records_terminate (bs : Xlsb.Bytes) : Xlsb.records bs ≠ .outOfFuel := Xlsb.records_total bs
+
+theorem xlsb_sheet_cells_no_panic (ctx : Xlsb.Ctx) (bs : Xlsb.Bytes) (m : String) :
+    Xlsb.sheetCells ctx bs ≠ .panic m := Xlsb.sheetCells_no_panic ctx bs m
+
+theorem xlsb_sheet_cells_terminate (ctx : Xlsb.Ctx) (bs : Xlsb.Bytes) : Xlsb.sheetCells ctx bs ≠ .outOfFuel :=
+  Xlsb.sheetCells_total ctx bs
+
+theorem xlsb_shared_strings_no_panic (bs : Xlsb.Bytes) (m : String) : Xlsb.readSharedStrings bs ≠ .panic m :=
+  Xlsb.readSharedStrings_no_panic bs m
 
 /-! ## VBA -/
 
